@@ -458,6 +458,12 @@ fn exp_from(j: &J) -> Exp {
 }
 
 pub fn replay(case: &J) -> CaseResult {
+    if case["kind"] == "doc-example" {
+        return match doc_example_check(case["name"].as_str().unwrap_or(""), case["rules"].as_str().unwrap_or("")) {
+            Ok(()) => CaseResult::Pass(Info::default()),
+            Err((msg, sig)) => CaseResult::Fail(Failure { msg, sig, case: case.clone() }),
+        };
+    }
     match check(case["doc"].as_str().unwrap_or(""), case["rules"].as_str().unwrap_or(""), &exp_from(&case["expected"]), case["what"].as_str().unwrap_or("")) {
         Ok(_) => CaseResult::Pass(Info::default()),
         Err((msg, sig)) => CaseResult::Fail(Failure { msg, sig, case: case.clone() }),
@@ -486,12 +492,68 @@ fn random_case(u: &mut Choices) -> CaseResult {
     }
 }
 
+// ------------------------------------------------------------------------------------------------
+// the documentation's own examples (docs/FUNCTIONS.md), on its own template
+
+const DOC_TEMPLATE: &str = r#"Resources:
+  newServer:
+    Type: AWS::New::Service
+    Properties:
+      Arn: arn:aws:newservice:us-west-2:123456789012:Table/extracted
+      Encoded: This%20string%20will%20be%20URL%20encoded
+    Collection:
+      - a
+      - b
+      - c
+  SecurityGroup:
+    Type: AWS::EC2::SecurityGroup
+    Properties:
+      SecurityGroupIngress:
+        String: "true"
+        Char: "1"
+        Int: 1
+        Float: 1.5
+      Char: "1"
+"#;
+
+const DOC_EXAMPLES: [(&str, &str); 7] = [
+    ("to_upper", "let type = Resources.newServer.Type\nrule check when %type !empty {\n  let upper = to_upper(%type)\n  %upper == \"AWS::NEW::SERVICE\"\n}\n"),
+    ("to_lower", "let type = Resources.newServer.Type\nrule check when %type !empty {\n  let lower = to_lower(%type)\n  %lower == /aws::new::service/\n}\n"),
+    ("substring", "let template = Resources.*[ Type == 'AWS::New::Service']\nrule check when %template !empty {\n  let arn = %template.Properties.Arn\n  let res = substring(%arn, 0, 3)\n  %res == \"arn\"\n}\n"),
+    ("url_decode", "let template = Resources.*[ Type == 'AWS::New::Service']\nrule check when %template !empty {\n  let encoded = %template.Properties.Encoded\n  let res = url_decode(%encoded)\n  %res == \"This string will be URL encoded\"\n}\n"),
+    ("join", "let template = Resources.*[ Type == 'AWS::New::Service']\nrule check when %template !empty {\n  let collection = %template.Collection.*\n  let res = join(%collection, \",\")\n  %res == \"a,b,c\"\n}\n"),
+    ("regex_replace", "let template = Resources.*[ Type == 'AWS::New::Service']\nrule check when %template !empty {\n  let arn = %template.Properties.Arn\n  let arn_partition_regex = \"^arn:(\\w+):(\\w+):([\\w0-9-]+):(\\d+):(.+)$\"\n  let capture_group_reordering = \"${1}/${4}/${3}/${2}-${5}\"\n  let res = regex_replace(%arn, %arn_partition_regex, %capture_group_reordering)\n  %res == \"aws/123456789012/us-west-2/newservice-Table/extracted\"\n}\n"),
+    ("parse_char", "let security_group = Resources.*[ Type == \"AWS::EC2::SecurityGroup\" ]\nrule check when %security_group !EMPTY {\n  let converted = parse_char(%security_group.Properties.Char)\n  %converted == '1'\n}\n"),
+];
+
+fn doc_example_check(name: &str, rules: &str) -> Result<(), (String, String)> {
+    let r = validate_payload(&[rules.to_string()], &[DOC_TEMPLATE.to_string()], &[], &VOpts::structured(Fmt::Json));
+    if let Some(p) = &r.panic {
+        return Err((format!("panic {}", p), format!("panic:{}", p.split(' ').next().unwrap_or(""))));
+    }
+    let ok = r.code == Ok(0) && serde_json::from_str::<J>(&r.out).map_or(false, |j| j[0]["compliant"].as_array().map_or(false, |a| a.len() == 1));
+    if ok {
+        Ok(())
+    } else {
+        Err((format!("FUNCTIONS.md example for {} does not PASS on the documentation's template: {}", name, r.brief()), format!("c18:doc-example:{}", name)))
+    }
+}
+
+fn doc_example_case(i: usize) -> CaseResult {
+    let (name, rules) = DOC_EXAMPLES[i];
+    match doc_example_check(name, rules) {
+        Ok(()) => CaseResult::Pass(Info { nontrivial: true, key: hash_case(&[name]), classes: vec![format!("doc-example:{}", name)], evals: 1, sample: Some(json!({"example": name, "rules": rules})) }),
+        Err((msg, sig)) => CaseResult::Fail(Failure { msg, sig, case: json!({"kind": "doc-example", "name": name, "rules": rules}) }),
+    }
+}
+
 pub fn run(tier: Tier, seed: u64) -> i32 {
     let spec = EvidenceSpec {
         rule: "Random calls of count, to_upper, to_lower, url_decode, substring, join, parse_int, parse_float, parse_string, parse_boolean, json_parse, regex_replace (anchored matching pattern) and parse_int(parse_string(n)) on argument lists of 0-5 members drawn from unicode / numeric / padded / signed / percent-encoded strings, ints, floats, bools, null, lists and unresolved members; argument forms query, variable, literal and nested call; substring offsets from {-1,0..5,11,65535,65536,65538,i64::MAX,1.0} incl. an 80 000-character string. The result set is read from the structured report of `%r !exists` (one failing check per member, in order; SKIP = empty) and compared with an independent implementation in the harness; unparsable converter input must be an evaluation error; a single scalar result is then used in `%r == lit`, `%r != lit`, `%r in [..]` and count(%r). Outcomes the documentation does not determine (malformed percent escapes, non-ASCII substring, exotic float notations, join over unresolved members) are generated but not asserted. Non-trivial: an asserted case; distinct by hash of the texts.".into(),
         assumptions: vec!["Rust's to_uppercase/to_lowercase, str::parse and string slicing are part of the trusted base of the reference implementation".into()],
     };
     execute("C18", tier, seed, spec, &replay, &|run: &Session| {
+        run.run_enum("doc-examples", DOC_EXAMPLES.len(), doc_example_case);
         run.run_random("functions", tier.pick(40_000, 800_000), 200, random_case);
     })
 }
